@@ -142,5 +142,16 @@ def run(tier, seed=0, shard=(0, 1)):
                 if got != ('exc', ValueError):
                     rep.fail('C10:perm.refuses', 'non-permutation / length mismatch %r gave %r' % (bad, got),
                              '%s: permutation(%r, %r)' % (cname, bad, dom3))
+            # every (permutation length, explicit domain width) mismatch, including the empty domain / empty permutation
+            for n in range(0, 4):
+                for w in range(0, 5):
+                    if n == w:
+                        continue
+                    dom_w = mk(*[atoms[k % len(atoms)] for k in range(w)])
+                    got = common.outcome(cls.permutation, list(range(n)), dom_w)
+                    rep.case('%s mismatch perm length %d, domain width %d' % (cname, n, w))
+                    if got != ('exc', ValueError):
+                        rep.fail('C10:perm.refuses', 'identity permutation of length %d on an explicit domain of %d '
+                                 'wires gave %r' % (n, w, got), '%s: permutation(%r, %r)' % (cname, list(range(n)), dom_w))
         rep.sample('%s: all swaps / permutations' % cname)
     return rep.result()
